@@ -390,7 +390,18 @@ def corpus_variants(pid: str, ctx: Ctx) -> list:
     if os.path.isdir(sdir):
         for name in sorted(os.listdir(sdir)):
             pf = os.path.join(sdir, name, "patch.diff")
-            if name.startswith(pid) and os.path.isfile(pf):
+            if not os.path.isfile(pf):
+                continue
+            # the property whose check has to report the change: the one the
+            # seed was written for, unless its meta.json names the property
+            # the broken clause belongs to (`checked_by`)
+            owners = [name[:3]]
+            try:
+                owners = json.load(open(os.path.join(
+                    sdir, name, "meta.json"))).get("checked_by") or owners
+            except Exception:
+                pass
+            if pid in owners:
                 out.append(dict(name=f"seeded/{name}", patch=pf,
                                 expect="fire", rule=pid,
                                 allow_error=name in UNDECIDABLE_SEEDS))
@@ -411,7 +422,9 @@ def corpus_variants(pid: str, ctx: Ctx) -> list:
             if files and not (touched & files):
                 continue
             out.append(dict(name=f"refactors/{name}", patch=pf,
-                            expect="silent"))
+                            expect="silent",
+                            allow_error=pid in UNDECIDABLE_REFACTORS.get(
+                                name, ())))
     # third corpus: realistic legitimate commits (features, modernisations,
     # bug fixes). Expected silent; an alarm is accepted only where the
     # commit's meta.json lists it as a true alarm (the commit does deviate
@@ -453,7 +466,16 @@ UNDECIDABLE_SEEDS = (
     "C11h",   # motion filter loop re-written over zip(poses, distances)
     "C13j",   # per-array merge strategy table
     "C15i",   # inversion moved into load_transform(invert=...) (analytic)
+    "C14k",   # vendored euler_from_matrix edited (assumption A4, as C14d)
+    "C20k",   # vectorised marker geometry with rows for columns (as C20h)
 )
+
+# behaviour-preserving changes on which a check refuses to decide: the same
+# honest "cannot decide", on the false-alarm side. One line of reason each.
+UNDECIDABLE_REFACTORS = {
+    "R14_6": ("C14",),   # vendored euler_from_matrix split into helpers: the
+                         # summary (A4) was derived from the original code
+}
 
 
 def run_selftest(pid: str, mod, ctx: Ctx, repo: str) -> dict:
